@@ -43,7 +43,7 @@ def req_cases(prop, abstract, rnd, tier):
         for d in range(draws if prop == "C03" else (3 if tier == "quick" else 12)):
             c = dict(a)
             c.update(codec=rnd.choice(["json", "proto"]), gzip=rnd.random() < 0.25, spell=rnd.choice(["json", "proto"]),
-                     invalid="", table=(d % 2 == 0), stream=rnd.random() < 0.15, fam="tc")
+                     invalid="", table=(d % 2 == 0), stream=rnd.random() < 0.15, fam="tc", zeropath=(prop == "C07" and d % 3 == 2))
             out.append(c)
         if prop == "C03":
             # one invalid text per shape, in a path-bound or query-carried scalar
@@ -52,7 +52,7 @@ def req_cases(prop, abstract, rnd, tier):
                 if role in a["present"] and a["body"] != "*":
                     cands.append(role)
             c = dict(a)
-            c.update(codec="json", gzip=False, spell="proto", invalid=rnd.choice(cands), table=True, stream=False, fam="tc")
+            c.update(codec="json", gzip=False, spell="proto", invalid=rnd.choice(cands), table=True, stream=False, fam="tc", zeropath=False)
             out.append(c)
     return out
 
